@@ -133,6 +133,11 @@ type verifE1Party struct {
 	// commitments ever fully held (signed by the peer) per height
 	// (recorded before they can be revoked); used by C04/C05.
 	heldTx map[uint64]*wire.MsgTx
+	// stale: an OpenChannel instance of this party's channel loaded when
+	// the node started and never refreshed - what the funding manager /
+	// chain watcher / arbitrator hold while the link advances the state
+	// through its own instance (see actForeign).
+	stale *channeldb.OpenChannel
 }
 
 type verifE1Htlc struct {
@@ -205,6 +210,11 @@ type verifE1 struct {
 	// richAdds: some update_add_htlc carry a blinding point / custom
 	// records.
 	richAdds bool
+
+	// foreignWriters: other subsystems write channel markers through
+	// their own, stale OpenChannel instance between actions (actForeign).
+	foreignWriters bool
+	nForeign       int
 
 	// when set, every HTLC eventually gets resolved (C17 needs HTLC-free
 	// states with arbitrary msat balances).
@@ -1280,6 +1290,7 @@ func (e *verifE1) recordHeld(i int) {
 
 func (e *verifE1) reload(i int) bool {
 	p := e.parties[i]
+	reopened := p.reopenKind != 0
 	if p.reopenKind != 0 && verifSqliteReopen != nil {
 		if err := verifSqliteReopen(e, i); err != nil {
 			e.vc.t.Fatalf("backend restart of %s: %v", p.Name, err)
@@ -1305,6 +1316,75 @@ func (e *verifE1) reload(i int) bool {
 		return false
 	}
 	p.ch = nc
+	if e.foreignWriters && (p.stale == nil || reopened) {
+		e.loadStale(i)
+	}
+	return true
+}
+
+// enableForeign switches on the foreign-writer actions and loads each party's
+// stale instance now (i.e. at "node start").
+func (e *verifE1) enableForeign() {
+	e.foreignWriters = true
+	for i := range e.parties {
+		e.loadStale(i)
+	}
+}
+
+func (e *verifE1) loadStale(i int) {
+	p := e.parties[i]
+	chans, err := p.db.ChannelStateDB().FetchOpenChannels(p.idPub)
+	if err != nil || len(chans) != 1 {
+		e.vc.t.Fatalf("loadStale(%s): n=%d err=%v", p.Name, len(chans), err)
+	}
+	p.stale = chans[0]
+}
+
+// actForeign: a subsystem other than the link (funding manager on the first
+// confirmation of a zero-conf channel, chain watcher, ...) records a channel
+// marker through ITS OWN OpenChannel instance, which was loaded when the node
+// started and has not seen the commitment updates made since. The write must
+// not disturb anything the commitment state machine has made durable: the
+// caller follows it with a reload fork (durable equality, released-secret
+// safety), see checkForeign.
+func (e *verifE1) actForeign(i int) bool {
+	p := e.parties[i]
+	if p.stale == nil {
+		return false
+	}
+	var err error
+	var what string
+	switch e.r.Intn(4) {
+	case 0:
+		h := uint32(100 + e.r.Intn(1000))
+		what = fmt.Sprintf("MarkConfirmationHeight(%d)", h)
+		err = p.stale.MarkConfirmationHeight(h)
+	case 1:
+		scid := lnwire.NewShortChanIDFromInt(uint64(100+e.r.Intn(1000))<<40 | 1<<16)
+		what = "MarkRealScid"
+		err = p.stale.MarkRealScid(scid)
+	case 2:
+		what = "MarkAsOpen"
+		err = p.stale.MarkAsOpen(p.stale.ShortChannelID)
+	default:
+		what = "MarkCloseConfirmationHeight(none)"
+		err = p.stale.MarkCloseConfirmationHeight(fn.None[uint32]())
+	}
+	e.nForeign++
+	e.vc.Count("foreign_marker_writes", 1)
+	e.logf("foreign %s %s (stale instance at local height %d, live at %d)", p.Name, what,
+		p.stale.LocalCommitment.CommitHeight, p.ch.channelState.LocalCommitment.CommitHeight)
+	if err != nil {
+		e.viol("honest_call_error", "foreign:"+what[:4]+":"+e.errClass(err),
+			fmt.Sprintf("%s on %s's stale instance: %v", what, p.Name, err))
+		return true
+	}
+	if p.stale.LocalCommitment.CommitHeight != p.ch.channelState.LocalCommitment.CommitHeight ||
+		p.stale.RemoteCommitment.CommitHeight != p.ch.channelState.RemoteCommitment.CommitHeight {
+
+		e.vc.Count("foreign_writes_on_really_stale_instance", 1)
+	}
+	e.checkFork(i)
 	return true
 }
 
@@ -1623,6 +1703,11 @@ func (e *verifE1) burst(from, n int) {
 func (e *verifE1) step(allowFee bool) string {
 	r := e.r
 	e.refreshLedger(false)
+	if e.foreignWriters && r.Chance(1, 10) {
+		if e.actForeign(r.Intn(2)) {
+			return "foreign"
+		}
+	}
 	for try := 0; try < 8; try++ {
 		switch r.Intn(12) {
 		case 0, 1, 2:
